@@ -3,7 +3,9 @@ C10 — property theorems (statements, short proofs from the lemmas of Proofs*.l
 All theorems quantify over every configuration (any number of items, any worker count, arbitrary finite
 user scripts, any position of a cancel / panic / context end) and over every schedule (`Reach`).
 -/
-import GoZero.C10.ProofsA
+import GoZero.C10.ProofsH
+import GoZero.C10.ProofsY
+import GoZero.C10.ProofsP
 namespace GoZero.C10
 
 /-! ### (b) at most `workers` mappers run concurrently -/
@@ -37,9 +39,23 @@ while somebody cancels or the context ends. -/
 theorem returns_expected_error (c : Cfg) (s : St) (h : Reach c s) (r : Res) (hr : result s = some r) :
     allowed c r = true := by
   have I := invC_reach h
+  have D := invD_reach h
   unfold result at hr
   split at hr
-  next r' hc => simp at hr; subst hr; exact I.cres r' (Or.inr (Or.inr hc))
+  next r' hc =>
+    simp at hr; subst hr
+    have h0 := I.cres r' (Or.inr (Or.inr hc))
+    simp only [allowed, h0, Bool.true_and]
+    cases r' with
+    | val v => simpa [refined] using (D.v2 v (Or.inr (Or.inr hc))).1
+    | err e =>
+      cases e with
+      | noOutput =>
+        have := (D.n3 (Or.inr (Or.inr hc))).1
+        simp only [refined, Bool.or_eq_true, List.isEmpty_iff]
+        rcases this with h | h | h | h <;> simp [h]
+      | _ => rfl
+    | panic p => rfl
   next => simp at hr
 
 /-- spelled out for errors: a cancel error was passed to `cancel` by a script of this call. -/
@@ -47,21 +63,77 @@ theorem cancel_error_was_passed (c : Cfg) (s : St) (h : Reach c s) (k : Nat)
     (hr : result s = some (.err (.user k))) :
     (∃ i, i < c.n ∧ UAct.cancel (some k) ∈ c.mscript i) ∨ UAct.cancel (some k) ∈ c.rscript := by
   have := returns_expected_error c s h _ hr
-  simp only [allowed, anyScript, anyMapper, Bool.or_eq_true, List.any_eq_true, List.mem_range,
-    List.contains_iff_mem] at this
+  simp only [allowed, allowed0, refined, Bool.and_true, anyScript, anyMapper, Bool.or_eq_true, List.any_eq_true,
+    List.mem_range, List.contains_iff_mem] at this
   exact this
 
 /-- a context error is returned only if the context can end. -/
 theorem deadline_only_if_context_ends (c : Cfg) (s : St) (h : Reach c s)
     (hr : result s = some (.err .deadline)) : c.ctxCan = true ∨ c.ctxPre = true := by
   have := returns_expected_error c s h _ hr
-  simpa [allowed] using this
+  simpa [allowed, allowed0, refined] using this
 
 /-- a re-raised mapper panic is a panic of that mapper's script. -/
 theorem reraised_panic_is_user_panic (c : Cfg) (s : St) (h : Reach c s) (i : Nat)
     (hr : result s = some (.panic (.mapper i))) : i < c.n ∧ UAct.panic ∈ c.mscript i := by
   have := returns_expected_error c s h _ hr
-  simpa [allowed, hasPanic] using this
+  simpa [allowed, allowed0, refined, hasPanic] using this
+
+/-! ### (c') the table for the schedule that happened (model side of `Spec.allowedAt`)
+
+The harness proves "an error was recorded before the reducer began to write" from its event history; in the
+model that moment is the guard of the reducer's first `Write` (`wSnap`), resp. the end of the reducer
+function (`eSnap`). -/
+
+/-- **A value is returned only if no error was recorded (and the context was not over) when the reducer
+began its first write**; the value is that first write. -/
+theorem value_only_if_no_error_before_the_write (c : Cfg) (s : St) (h : Reach c s) (v : Nat)
+    (hr : result s = some (.val v)) :
+    (writesOf c.rscript).head? = some v ∧ s.wSnap = some false := by
+  have D := invD_reach h
+  unfold result at hr
+  split at hr
+  next r' hc => simp at hr; subst hr; exact D.v2 v (Or.inr (Or.inr hc))
+  next => simp at hr
+
+/-- the snapshot means what it says: `some true` is only taken when an error is recorded or the context over. -/
+theorem wSnap_sound (c : Cfg) (s : St) (h : Reach c s) (hs : s.wSnap = some true) :
+    s.retErr ≠ none ∨ s.ctxDone = true := (invD_reach h).w1 hs
+
+/-- **ErrReduceNoOutput is returned only if no error was recorded when the reducer function ended.** -/
+theorem no_output_only_if_no_error_before_reducer_end (c : Cfg) (s : St) (h : Reach c s)
+    (hr : result s = some (.err .noOutput)) : s.eSnap = some false := by
+  have D := invD_reach h
+  unfold result at hr
+  split at hr
+  next r' hc => simp at hr; subst hr; exact (D.n3 (Or.inr (Or.inr hc))).2
+  next => simp at hr
+
+/-- **The first cancel wins**: once an error is recorded no later `cancel` (nor the caller's
+`cancel(DeadlineExceeded)`) replaces it. -/
+theorem first_cancel_wins (c : Cfg) (s s' : St) (a : Actor) (e : Err) (hs : step c s a = some s')
+    (he : s.retErr = some e) (h : Reach c s) : s'.retErr = some e := by
+  have ho : s.once ≠ 0 := by
+    intro h0
+    have hn := (invF_reach h).f5 h0
+    simp [hn] at he
+  exact retErr_stable hs ho he
+
+/-- **An item is dropped (taken from the source by a drain, never mapped) only after a fault**: some cancel
+has recorded its error, or a mapper panicked, or the context is over, or the reducer goroutine has finished. -/
+theorem dropped_item_means_fault (c : Cfg) (s : St) (h : Reach c s) (hd : s.dropped ≠ []) :
+    s.retErr ≠ none ∨ (∃ i, i < c.n ∧ UAct.panic ∈ c.mscript i) ∨ s.ctxDone = true ∨ s.rpc = .done := by
+  have F := invF_reach h
+  have I := invC_reach h
+  rcases F.f3 hd with h1 | h1 | h1 | h1
+  · exact Or.inl (I.once1 h1)
+  · have := F.f4 h1
+    simp only [anyMapper, List.any_eq_true, List.mem_range, hasPanic, List.contains_iff_mem] at this
+    exact Or.inr (Or.inl this)
+  · exact Or.inr (Or.inr (Or.inl h1))
+  · rcases I.finw h1 with h2 | h2
+    · exact Or.inl (I.once1 (by omega))
+    · exact Or.inr (Or.inr (Or.inr h2))
 
 /-! ### (a) conservation (every schedule, every fault placement) -/
 
@@ -111,27 +183,220 @@ theorem unfixed_goroutine_leak :
     reach_runSched schedCancelThenPanic Reach.init (by rfl)
   exact ⟨hr, stuck_of_stuckB hr (by rfl), by rfl, by rfl⟩
 
-/-! ### (d) NOT PROVEN — kept as the full statement (delivered as *partial*)
+/-! ### (d) clean termination of the repaired code -/
 
-    theorem no_deadlock (c : Cfg) (hf : c.fixed = true) (hw : 1 ≤ c.workers)
-        (hr : (writesOf c.rscript).length ≤ 2) (s : St) (h : Reach c s)
-        (hlive : result s = none ∨ aliveCount c s ≠ 0) : ∃ a, step c s a ≠ none
+/-- **No deadlock.**  In every reachable configuration of the repaired code (workers ≥ 1 — `WithWorkers`
+clamps, `Tie.tie_minWorkers`; a reducer that writes at most twice — see `props/C10.json`) in which the
+caller has not returned or a goroutine of the call is alive, some actor can take a step — whatever the
+position of a cancel / panic / context end and whatever the schedule so far. -/
+theorem no_deadlock (c : Cfg) (hf : c.fixed = true) (hw : 1 ≤ c.workers)
+    (hr : (writesOf c.rscript).length ≤ 2) (s : St) (h : Reach c s)
+    (hlive : result s = none ∨ aliveCount c s ≠ 0) : ∃ a, step c s a ≠ none := by
+  apply Classical.byContradiction
+  intro hn
+  have hst : ∀ a, step c s a = none := by
+    intro a
+    cases hs : step c s a with
+    | none => rfl
+    | some s' => exact absurd ⟨a, by simp [hs]⟩ hn
+  have := stuck_is_final c hf hw hr s h hst
+  rcases hlive with h1 | h1
+  · exact this.1 h1
+  · exact h1 this.2
 
-    theorem terminates (c : Cfg) (hf : c.fixed = true) :
-        ∃ μ : St → Nat, ∀ s a s', Reach c s → step c s a = some s' → μ s' < μ s
+/-- **Termination.**  A measure (`mu`: items still in the source, remaining script and pipeline work of every
+goroutine, buffered values, the context's one transition) that every step of every actor strictly
+decreases: every run is finite (at most `mu c (init c)` steps). -/
+theorem terminates (c : Cfg) : ∃ μ : St → Nat, ∀ s a s', Reach c s → step c s a = some s' → μ s' < μ s :=
+  ⟨mu c, fun _ a _ hr hs => mu_step a hr hs⟩
 
-(so that every maximal run ends with the caller returned and `aliveCount = 0`).  What is missing is the
-progress argument: the invariants "at most one goroutine is between the CAS and the send of
-`onceChan.write`, and then the buffer is empty", "a goroutine blocked in `cancel` implies a runner in
-`drain(source)`", "reducer blocked on an empty open collector implies the dispatcher has not closed it",
-and the well-founded measure.  What IS proven: the negation for the code as it was (`unfixed_call_deadlocks`,
-`unfixed_goroutine_leak`) and the safety side (`collector_open_while_mappers_run`: no send on a closed
-collector).  At runtime the driver runs the fixed model under six schedulers per generated call and
-requires the caller finished and no goroutine alive, and the harness checks the real code with a hang
-watchdog and a goroutine snapshot.  Likewise the end-state equalities for "nothing cancelled"
-(`result = expected c`, `mapped = range n`, `reduced = all written values`) are checked by the monitor
-and by exact model/implementation comparison, not proven; the proven part is the conservation
-invariants above, which hold at every point of every run. -/
+/-- several steps. -/
+inductive Steps (c : Cfg) : St → St → Prop
+  | refl (s : St) : Steps c s s
+  | step {s s1 s2 : St} (a : Actor) : step c s a = some s1 → Steps c s1 s2 → Steps c s s2
+
+/-- **Every run ends clean.**  From every reachable configuration of the repaired code every maximal run is
+finite (`terminates`) and ends in a configuration in which the caller has returned and no goroutine of the
+call is alive; in particular such a configuration is reachable. -/
+theorem every_run_ends_clean (c : Cfg) (hf : c.fixed = true) (hw : 1 ≤ c.workers)
+    (hr : (writesOf c.rscript).length ≤ 2) (s : St) (h : Reach c s) :
+    ∃ s', Steps c s s' ∧ Reach c s' ∧ (∀ a, step c s' a = none) ∧ result s' ≠ none ∧ aliveCount c s' = 0 := by
+  generalize hm : mu c s = m
+  induction m using Nat.strongRecOn generalizing s with
+  | _ m ih =>
+    by_cases hst : ∀ a, step c s a = none
+    · have := stuck_is_final c hf hw hr s h hst
+      exact ⟨s, Steps.refl s, h, hst, this.1, this.2⟩
+    · have ⟨a, ha⟩ : ∃ a, step c s a ≠ none := by
+        apply Classical.byContradiction
+        intro hn
+        exact hst (fun a => by
+          cases hs : step c s a with
+          | none => rfl
+          | some s' => exact absurd ⟨a, by simp [hs]⟩ hn)
+      obtain ⟨s1, hs1⟩ := Option.ne_none_iff_exists'.mp ha
+      have hlt := mu_step a h hs1
+      obtain ⟨s', hst', hr', hrest⟩ := ih (mu c s1) (by omega) s1 (Reach.step a h hs1) rfl
+      exact ⟨s', Steps.step a hs1 hst', hr', hrest⟩
+
+/-! ### (d') a user panic is re-raised
+
+FULL STATEMENT (false for the code as it is, see the witness below):
+
+    theorem panic_not_lost (c : Cfg) (hf : c.fixed = true) (hnc : noCancel c = true) (s : St) (h : Reach c s)
+        (r : Res) (hr : result s = some r) (hnp : resIsPanic r = false) : s.wrote = false
+
+i.e. "if nobody cancels and the context cannot end, a call that returns normally has captured no user panic".
+`onceChan.write` is `if CAS(&wrote,0,1) { channel <- val }`: the winner of the CAS is the only one that will
+ever send, but it sends LATER; a second panicking user function loses the CAS and goes on (wg.Done …).  Mapper
+and reducer goroutines send before `wg.Done` / `finish`, so the call waits for them; the GENERATOR goroutine
+is waited for by nobody but `drain(source)`, which runs after `close(collector)`.  So a generator that has
+won the CAS and is delayed before its send, plus a mapper that panics meanwhile, lets the call return the
+reducer's value with two user panics captured and none re-raised (`generator_panic_can_be_lost`).
+Proven instead: `panic_not_lost_partial` (the generator does not panic). -/
+
+/-- **A captured panic is re-raised** (partial: the generator does not panic).  If nobody cancels, the
+context cannot end and the generator does not panic, a call of the repaired code that returns a value or an
+error — not a panic — has captured no panic at all: `onceChan.wrote` is still false and the channel is
+empty.  (Every panicking mapper / reducer goroutine passes `onceChan.write` before `wg.Done` / `finish`,
+and the call returns only after `finish`: `no_deadlock` shows it does return.) -/
+theorem panic_not_lost_partial (c : Cfg) (hf : c.fixed = true) (hnc : noCancel c = true) (hg : genPanics c = false)
+    (s : St) (h : Reach c s) (r : Res) (hr : result s = some r) (hnp : resIsPanic r = false) :
+    s.wrote = false ∧ s.pbuf = none := by
+  have P := invP_reach hnc hg hf h
+  unfold result at hr
+  split at hr
+  next r' hc =>
+    simp at hr; subst hr
+    have := P.k3 r' hc hnp
+    exact ⟨this.2, this.1⟩
+  next => simp at hr
+
+/-- two items, two workers: mapper 0 panics, the generator panics after the last item, the reducer ranges over
+the pipe and writes 7. -/
+def cfgLost : Cfg :=
+  { n := 2, workers := 2, gPanicAt := some 2,
+    mscript := fun i => if i = 0 then [.panic] else [],
+    rscript := [.readAll, .write 7], ctxCan := false, ctxPre := false, fixed := true }
+
+/-- both items are handed out; the generator panics and wins the CAS of `onceChan.write` but is delayed
+before its send; mapper 0 panics, loses the CAS, ends; mapper 1 ends; the dispatcher sees `failed`, closes
+the collector; the reducer writes 7 and ends; the caller takes 7, finds the panic channel empty, returns. -/
+def schedLost : List Actor :=
+  [.disp, .disp, .disp, .disp, .disp, .disp, .disp, .disp, .gen, .gen,
+   .mapper 0, .mapper 0, .mapper 0, .mapper 0, .mapper 0, .mapper 1, .mapper 1, .mapper 1,
+   .disp, .disp, .disp, .red, .red, .red, .red, .red, .red, .caller, .caller]
+
+def stateLost : St := (runSched cfgLost schedLost (init cfgLost)).getD (init cfgLost)
+
+/-- **Witness (a user panic can be lost; the code as it is, also after the round-1 fix).**  Nobody cancels;
+the generator and mapper 0 both panic; the call returns the reducer's value 7.  The generator goroutine
+stands between the CAS and the send of `onceChan.write`, mapper 0's panic was dropped because it lost the CAS. -/
+theorem generator_panic_can_be_lost :
+    Reach cfgLost stateLost ∧ noCancel cfgLost = true ∧ result stateLost = some (.val 7) ∧
+    stateLost.failed = 1 ∧ stateLost.wrote = true ∧ stateLost.wroteBy = some .gen ∧ stateLost.gpc = .psend ∧
+    stateLost.pbuf = none := by
+  have hr : Reach cfgLost stateLost := reach_runSched schedLost Reach.init (by rfl)
+  exact ⟨hr, by decide, by rfl, by rfl, by rfl, by rfl, by rfl, by rfl⟩
+
+/-! ### (e) nothing cancelled: the end-state equalities -/
+
+/-- **The call returns the reducer's single output.**  When nothing is cancelled (no cancel, no panic, the
+context cannot end) a finished call has exactly the expected outcome: the reducer's single value,
+`ErrReduceNoOutput` if it writes nothing, the library's panic if it writes more than once. -/
+theorem faultfree_result (c : Cfg) (hff : faultFree c = true) (s : St) (h : Reach c s) (r : Res)
+    (hr : result s = some r) : r = expected c := by
+  have X := invX_reach hff h
+  unfold result at hr
+  split at hr
+  next r' hc =>
+    simp at hr; subst hr
+    rcases X.z4 r' (Or.inr hc) with ⟨h1, h2⟩ | ⟨v, h1, h2⟩ | ⟨h1, h2⟩
+    · simp [expected, h1, h2]
+    · simp [expected, h1, h2]
+    · subst h1
+      unfold expected
+      split
+      next hw => simp [hw] at h2
+      next v hw => simp [hw] at h2
+      next => rfl
+  next => simp at hr
+
+/-- **Every generated item is handed to the mapper exactly once.**  When nothing is cancelled, once the
+dispatcher has left its loop every item `0 … n-1` has been handed to exactly one mapper invocation, nothing
+was dropped, and nothing else was mapped. -/
+theorem faultfree_every_item_mapped_once (c : Cfg) (hff : faultFree c = true) (s : St) (h : Reach c s)
+    (hd : dWaiting s.dpc = true) :
+    s.dropped = [] ∧ ∀ i, s.mapped.count i = if i < c.n then 1 else 0 := by
+  have X := invX_reach hff h
+  have F := invF_reach h
+  have hg : s.gNext = c.n := X.y3 (Or.inr (F.f1 (X.y1 (Or.inl hd))))
+  refine ⟨X.y2, fun i => ?_⟩
+  have hi := itemInv_reach h i
+  have hsp : ¬ s.dpc = .spawn i := by intro he; rw [he] at hd; simp [dWaiting] at hd
+  rw [X.y2, hg] at hi
+  simpa [hsp] using hi
+
+/-- **Every value a mapper writes reaches the reducer exactly once.**  When nothing is cancelled, once the
+reducer goroutine has ended, the values received by the reducer function (plus those received by the
+deferred drain, if the reducer function did not range over the whole pipe) are exactly the values the
+mapper scripts of all items write, with multiplicity; and if the reducer ranges over the pipe (`readAll`),
+the deferred drain received nothing: `reduced` alone is the multiset of all written values. -/
+theorem faultfree_every_value_reduced_once (c : Cfg) (hff : faultFree c = true) (s : St) (h : Reach c s)
+    (hr : s.rpc = .done) :
+    (∀ v, s.reduced.count v + s.drained.count v = (writesOfItems c (List.range c.n)).count v) ∧
+    (UAct.readAll ∈ c.rscript → s.drained = []) := by
+  have X := invX_reach hff h
+  have E := invE_reach h
+  have B := invB_reach h
+  have R := invR_reach hff h
+  have hcq := E.r1 (by simp [hr, rAfterDrain])
+  have hda := (B.collc hcq.1).1
+  have hdw : dWaiting s.dpc = true := by
+    cases hp : s.dpc <;> simp [hp, dAfter] at hda <;> simp [dWaiting]
+  have hmapped := (faultfree_every_item_mapped_once c hff s h hdw).2
+  have hwg : s.wg = 0 := B.dafter hda
+  have hpend : ∀ i, i < c.n → pend c i (s.mp i) = [] := by
+    intro i hi
+    have hw : inWg (s.mp i) = false := by
+      have := cnt_ge inWg s.mp c.n i hi
+      rw [← B.wgc, hwg] at this
+      cases hx : inWg (s.mp i) <;> simp [hx, b2n] at this ⊢
+    have hne : s.mp i ≠ .idle := X.y4 i (by
+      have := hmapped i
+      simp [hi] at this
+      exact List.count_pos_iff.mp (by omega))
+    cases hm : s.mp i <;> simp [hm, inWg] at hw hne ⊢ <;> simp [pend]
+  refine ⟨fun v => ?_, fun hra => R.ra3 hra⟩
+  have hs := sentInv_reach hff h v
+  rw [sumP_zero c v s.mp c.n hpend] at hs
+  have hv := valInv_reach h v
+  rw [hcq.2] at hv
+  rw [total_eq_writesOfItems]
+  simp at hv
+  omega
+
+/-- the three equalities at once for a configuration in which nothing can move any more (a terminated run). -/
+theorem faultfree_terminated (c : Cfg) (hff : faultFree c = true) (hf : c.fixed = true) (hw : 1 ≤ c.workers)
+    (hr : (writesOf c.rscript).length ≤ 2) (s : St) (h : Reach c s) (hst : ∀ a, step c s a = none) :
+    result s = some (expected c) ∧ aliveCount c s = 0 ∧ s.dropped = [] ∧
+    (∀ i, s.mapped.count i = if i < c.n then 1 else 0) ∧
+    (∀ v, s.reduced.count v + s.drained.count v = (writesOfItems c (List.range c.n)).count v) ∧
+    (UAct.readAll ∈ c.rscript → s.drained = []) := by
+  have hfin := stuck_is_final c hf hw hr s h hst
+  obtain ⟨r, hres⟩ := Option.ne_none_iff_exists'.mp hfin.1
+  have hexp := faultfree_result c hff s h r hres
+  have hrd : s.rpc = .done := by
+    have := hfin.2
+    unfold aliveCount at this
+    cases hp : s.rpc <;> simp [hp] at this ⊢
+  have hdd : s.dpc = .done := by
+    have := hfin.2
+    unfold aliveCount at this
+    cases hp : s.dpc <;> simp [hp] at this ⊢
+  have hm := faultfree_every_item_mapped_once c hff s h (by simp [hdd, dWaiting])
+  have hv := faultfree_every_value_reduced_once c hff s h hrd
+  exact ⟨by rw [hres, hexp], hfin.2, hm.1, hm.2, hv.1, hv.2⟩
 
 /-! ### non-vacuity: the fixed model on the same two configurations, and a plain run -/
 
@@ -154,5 +419,31 @@ def cfgPlain : Cfg :=
 example : let s := runPrio cfgPlain (actors 3).reverse 400 (init cfgPlain)
     result s = some (expected cfgPlain) ∧ s.mapped = [0, 1, 2] ∧ s.dropped = [] ∧ s.reduced.count 1 = 1 ∧ s.reduced.count 2 = 1 ∧ s.reduced.count 3 = 1 ∧ s.reduced.length = 3
       ∧ s.drained = [] ∧ aliveCount cfgPlain s = 0 := by decide
+
+/-- `cfgPlain` is a "nothing cancelled" configuration with workers ≥ 1 and a single reducer write: the
+hypotheses of `no_deadlock`, `every_run_ends_clean`, `faultfree_terminated` are satisfiable, and the run
+above ends in a configuration in which nothing can move. -/
+example : faultFree cfgPlain = true ∧ cfgPlain.fixed = true ∧ 1 ≤ cfgPlain.workers ∧
+    (writesOf cfgPlain.rscript).length ≤ 2 ∧
+    stuckB cfgPlain (runPrio cfgPlain (actors 3).reverse 400 (init cfgPlain)) = true := by decide
+
+/-- the measure of `terminates` on the initial configuration of `cfgPlain` (an upper bound for the length of
+every run of this call). -/
+example : mu cfgPlain (init cfgPlain) = 112 := by decide
+
+/-- the C10-1 scenario in the model: one worker, mapper 0 writes and cancels with error 1 while the generator
+still has items, the reducer reads one value and writes 7.  Schedule: the cancel records its error and
+drains; the reducer's write begins after that (`wSnap = some true`); the caller receives the value while
+`cancel` is still in progress and must return the error, not the value. -/
+def cfgRace : Cfg :=
+  { n := 3, workers := 1, gPanicAt := none,
+    mscript := fun i => if i = 0 then [.write 5, .cancel (some 1)] else [],
+    rscript := [.readOne, .write 7], ctxCan := false, ctxPre := false, fixed := true }
+
+def schedRace : List Actor :=
+  [.disp, .disp, .disp, .disp, .mapper 0, .mapper 0, .mapper 0, .mapper 0, .red, .red, .red]
+
+example : let s := (runSched cfgRace schedRace (init cfgRace)).getD (init cfgRace)
+    s.once = 1 ∧ s.fin = false ∧ s.wSnap = some true ∧ s.dropped = [1] ∧ s.cpc = .defer (.err (.user 1)) := by decide
 
 end GoZero.C10
